@@ -40,13 +40,15 @@ def table_facts(rp, ot, static):
                       "replay": "PutExpression on a FunctionCall with %d arguments processes %d objects, MaxWorkQueueSize is %d" % (b["children"], b["processed"], b["const"])},
                      "own_budget", no_input=True)
     dset = set(ot["descend"])
-    for key, r in ot["shared"]:
-        if key in dset:
+    for gi, (slots, g) in enumerate(ot["groups"]):
+        hit = [k for k in slots if k in dset]
+        if len(hit) > 1:
             bad += 1
-            rp.violation({"kind": "own-share", "theorem": "Inst_C09.shared_slots_not_released", "type": r["type"], "path": r["path"], "sql": r["sql"],
-                          "replay": "parse %r and release the tree: the object stored at %s.%s is also stored elsewhere in the tree and the release goes on into this slot" % (r["sql"], r["type"], r["path"]),
-                          "explanation": "an object reached twice by one release is put into its pool twice"},
-                         "own_shared_%s_%d" % (r["type"], r["slot"]))
+            names = ["%s.%s" % (r["type"], r["path"]) for r in g["slots"] if (r["tid"], r["slot"]) in dset]
+            rp.violation({"kind": "own-share", "theorem": "Inst_C09.shared_slots_not_released", "slots": names, "sql": g["sql"],
+                          "replay": "parse %r and release the tree: one object is stored in %s and the release goes on into more than one of these slots" % (g["sql"], ", ".join(names)),
+                          "explanation": "an object reached twice by one release is put into its pool twice: the pool then hands it to two holders"},
+                         "own_shared_%d" % gi)
     kal = {(k["signature"].get("result"), k["signature"].get("buffer")): k for k in known_sig("alias")}
     for i, r in ot["alias"]:
         if r["aliased"]:
